@@ -143,6 +143,14 @@ type point struct {
 func main() {
 	wit.Quiet()
 	wit.EnsureMetrics(nil)
+	if d := os.Getenv("VERIF_MAKE_FIXTURE"); d != "" {
+		if err := makeFixture(d); err != nil {
+			fmt.Println("fixture:", err)
+			os.Exit(1)
+		}
+		fmt.Println("fixture written to", d)
+		return
+	}
 	run := ev.Start("C06", "fault_enumeration")
 	defer run.Finish()
 	run.Rule("crash points, enumerated exhaustively: (1) every database-driver operation (begin, query, exec, commit, rollback; positions learned from an unkilled run of the same script), before and after the real call, for the scripts {first use, growth, refresh, growth after a refused update, two logs interleaved} x {fresh database, table already holding another log's row}: the child SIGKILLs itself there; (2) every storage syscall (pwrite64, fsync, fdatasync, unlink, ftruncate and friends; count learned from a traced run) via strace signal injection; (3, thorough) random instants in a stream of updates; (4) the repository's own cmd/omniwitness binary (built from the working tree, real flags, real pool setting, real key wiring; only its embedded log list is replaced) receives updates through a stub bastion and is SIGKILLed while a request is in flight, restarted on the same file and judged through its HTTP read API. After each kill the file is reopened by this process with the plain production driver: per log the stored checkpoint must be hash-equal to the last acknowledged one or be the complete cosigned form of the single in-flight request; then a fork must be refused and the honest next step accepted through the real Update. evaluations = killed child runs verified; nontrivial = distinct (script, table state, operation or syscall index, phase)")
@@ -300,6 +308,8 @@ func main() {
 
 	realBinary(run, dir)
 	ackCommit(run, dir)
+	run.Floor("upgrade_logs_checked", 2)
+	upgrade(run, dir)
 
 	// (3) random instants
 	if run.Thorough() {
